@@ -32,7 +32,7 @@ vars == <<fields, nextId, done, prefix>>
 NoTag == [style |-> "none", words |-> <<>>]
 TagOf(style, i) == IF style = "none" THEN NoTag ELSE [style |-> style, words |-> TagWords[i]]
 CollKinds == {"strs", "ints", "smap", "set", "durs", "structs"}
-NarrowKinds == {"int8", "uint16", "named"}     \* leaf types narrower than the widest literal of their family
+NarrowKinds == {"int8", "uint16", "named", "f32", "c64"}     \* leaf types narrower than the widest literal of their family
 \* how a leaf is supplied: not at all / under its primary name / under its alias / under both (an error) / explicitly
 \* empty (collections) / empty under the primary name and a value under the alias (still both: an error) / under its
 \* primary name with a value outside the leaf type's range (an error)
